@@ -3,7 +3,6 @@ package generic
 import (
 	"github.com/pip-services3-gox/pip-services3-expressions-gox/io"
 	"github.com/pip-services3-gox/pip-services3-expressions-gox/tokenizers"
-	"github.com/pip-services3-gox/pip-services3-expressions-gox/tokenizers/utilities"
 )
 
 // CCommentState this state will either delegate to a comment-handling state,
@@ -38,12 +37,9 @@ func (c *CCommentState) NextToken(
 		str := c.GetMultiLineComment(scanner)
 		return tokenizers.NewToken(tokenizers.Comment, "/*"+str, line, column)
 	} else {
-		if !utilities.CharValidator.IsEof(secondSymbol) {
-			scanner.Unread()
-		}
-		if !utilities.CharValidator.IsEof(firstSymbol) {
-			scanner.Unread()
-		}
+		// Unread both symbols (a read of the end-of-input slot consumed it as well)
+		scanner.Unread()
+		scanner.Unread()
 		return tokenizer.SymbolState().NextToken(scanner, tokenizer)
 	}
 }
